@@ -77,6 +77,9 @@ class Type(object):
     def set_default(self, value):
         pass
 
+    def set_permitted_alphabet(self, permitted_alphabet):
+        pass
+
     def has_lower_bound(self):
         return self.minimum != 'MIN'
 
@@ -106,6 +109,9 @@ class String(Type):
         if permitted_alphabet is None:
             permitted_alphabet = self.PERMITTED_ALPHABET
 
+        self.permitted_alphabet = permitted_alphabet
+
+    def set_permitted_alphabet(self, permitted_alphabet):
         self.permitted_alphabet = permitted_alphabet
 
     def encode(self, data):
@@ -434,6 +440,17 @@ class Compiler(compiler.Compiler):
                 compiled = self.compile_user_type(name,
                                                   type_name,
                                                   module_name)
+
+                # Constraints applied to a referenced type.
+                if 'size' in type_descriptor:
+                    compiled = self.copy(compiled)
+                    compiled.set_size_range(
+                        *self.get_size_range(type_descriptor, module_name))
+
+                if 'from' in type_descriptor:
+                    compiled = self.copy(compiled)
+                    compiled.set_permitted_alphabet(
+                        self.get_permitted_alphabet(type_descriptor))
 
         if 'restricted-to' in type_descriptor:
             compiled = self.set_compiled_restricted_to(compiled,
